@@ -296,17 +296,29 @@ class Interp:
         arr = self.globals.get(key)
         if arr is not None:
             return arr
-        if not isinstance(sym, DataSymbol):
-            # an unresolved/generic symbol: try the routine's table by name
+        if not isinstance(sym, DataSymbol) or sym.is_import or \
+                sym.is_unresolved:
+            # an unresolved / imported / generic symbol: the written code
+            # resolves it by NAME, so do the same: first the routine's own
+            # tables, then the module-level variables of every Container
+            # in the tree (USE association of a module in the same file)
+            found = None
             try:
-                sym2 = frame.routine.symbol_table.lookup(sym.name)
+                cand = frame.routine.symbol_table.lookup(sym.name)
+                if isinstance(cand, DataSymbol) and not cand.is_import \
+                        and not cand.is_unresolved:
+                    found = cand
             except KeyError:
-                sym2 = None
-            if not isinstance(sym2, DataSymbol):
-                raise Unsupported(f"symbol {sym.name} is not a DataSymbol")
-            sym = sym2
-        if sym.is_import or sym.is_unresolved:
-            raise Unsupported(f"imported symbol {sym.name}")
+                pass
+            if found is None:
+                found = self._module_symbol(sym.name)
+                if found is not None:
+                    arr = self.allocate(found, frame)
+                    self.globals[key] = arr
+                    return arr
+            if found is None:
+                raise Unsupported(f"unresolved symbol {sym.name}")
+            sym = found
         if sym.is_argument:
             raise InterpError(f"argument {sym.name} not bound")
         arr = self.allocate(sym, frame)
@@ -316,6 +328,23 @@ class Interp:
         else:
             frame.vars[key] = arr
         return arr
+
+    def _module_symbol(self, name):
+        """A module-level DataSymbol called `name` in any Container of the
+        tree (None if there is none or it is itself imported)."""
+        for cont in self.root.walk(N.Container):
+            if isinstance(cont, N.FileContainer):
+                continue
+            cand = cont.symbol_table.symbols_dict.get(name.lower())
+            if cand is None:
+                for key, val in cont.symbol_table.symbols_dict.items():
+                    if key.lower() == name.lower():
+                        cand = val
+                        break
+            if isinstance(cand, DataSymbol) and not cand.is_import and \
+                    not cand.is_unresolved:
+                return cand
+        return None
 
     def is_global(self, sym, frame):
         rout = frame.routine
